@@ -1281,12 +1281,15 @@ fn c07_parse_num_frac() {
 /// a sign alone, or a literal ending in `.` / `e`, is a reported error - never a panic
 #[kani::proof]
 #[kani::unwind(12)]
+#[kani::stub(Num::from_str_radix, from_str_radix_stub)]
 fn c07_parse_num_reject() {
     assert!(MD::new(crate::read::verif_parse_num(b"-")).is_err());
     assert!(MD::new(crate::read::verif_parse_num(b"+")).is_err());
     assert!(MD::new(crate::read::verif_parse_num(b"1.")).is_err());
     assert!(MD::new(crate::read::verif_parse_num(b"1e")).is_err());
     assert!(MD::new(crate::read::verif_parse_num(b"-]")).is_err());
+    // ... decided before the integer parser is consulted
+    assert!(unsafe { RADIX_ARG }.is_none());
 }
 /// signed infinities
 #[kani::proof]
